@@ -1062,7 +1062,9 @@ class Terms(object):
             self._busy.discard(key)
         if skip_self:
             sub["self"] = ("param", "self")
-        return subst_params(rt, sub)
+        # merges inside the helper are written out before its parameters are
+        # replaced (a mu names definitions of the helper, not of the caller)
+        return subst_params(expand(rt, 3), sub)
 
 
 class _Inner(object):
@@ -1071,7 +1073,7 @@ class _Inner(object):
         self.cfg = t.cfg
 
     def _x(self, term):
-        term = subst_params(term, self.sub)
+        term = subst_params(expand(term, 3), self.sub)
         if isinstance(self.host, _Inner):
             term = self.host._x(term)
         return term
